@@ -23,7 +23,7 @@ PROP = "C13"
 READY = True
 DRIVER = "dm_token"
 LEAN_MODULES = ["DaskModel.Props.C13"]
-CASE_TIMEOUT_S = 60
+CASE_TIMEOUT_S = 180
 LEVEL_TEXT = ("Lean proof: (i) keys_restored — for every list of operands with arbitrary optimizers, the keys reported after "
               "_tune_down grouped the operands are the operands' keys in their original order; (ii) merge_sound / "
               "mergeAll_sound — in the merge of any number of dependency-closed graphs every key of every graph evaluates "
